@@ -33,8 +33,7 @@ def main(argv) -> int:
         repo = frontend.Repo()
         rep = core.Report(prop, tier, repo)
         mod = importlib.import_module(f"sa.props.{prop}")
-        mod.check(repo, rep)
-        rep.check_floors()
+        core.run_check(mod, repo, rep)
         known = core.load_known()
         unlisted, known_hits = [], []
         for v in rep.violations:
